@@ -150,6 +150,12 @@ int fnmatch(const char *pat, const char *str, int flags)
         vp_fn_tab[vp_fn_n].pat = pat;
         vp_fn_tab[vp_fn_n].str = str;
         vp_fn_tab[vp_fn_n].res = r;
+        {
+            unsigned q;
+            for (q = 0; q < 11 && str[q]; q++)
+                vp_fn_tab[vp_fn_n].copy[q] = str[q];
+            vp_fn_tab[vp_fn_n].copy[q] = '\0';
+        }
         vp_fn_n++;
     }
     return r;
